@@ -102,10 +102,11 @@ structure Stream where
   deriving Repr, DecidableEq
 
 /-- `StreamSink(stream)`: `_flushable` is decided once, by the GENERATED kernel, from what the stream
-exposes: a callable `flush`, its `line_buffering` and `write_through` attributes (a real file object
+exposes: a callable `flush` (`hasFlush`: found by `getattr`, i.e. also when provided through
+`__getattr__` delegation or a property; `hasStaticFlush`: found by a static lookup that runs no user code), its `line_buffering` and `write_through` attributes (a real file object
 reports its own buffering; a user class may report anything or nothing) -/
-def StreamSink.new (file : TextFile) (hasFlush lineBufferingAttr writeThrough : Bool) : Stream :=
-  { file := file, flushable := Gen.flushableOf hasFlush lineBufferingAttr writeThrough }
+def StreamSink.new (file : TextFile) (hasFlush hasStaticFlush lineBufferingAttr writeThrough : Bool) : Stream :=
+  { file := file, flushable := Gen.flushableOf hasFlush hasStaticFlush lineBufferingAttr writeThrough }
 
 def runStreamOp (m : Str) (s : Stream) : StreamOp → Stream
   | .write => { s with file := s.file.write m }
@@ -308,6 +309,10 @@ def runStopOp (st : Handler × Bool) (op : Bool × StopOp) : Handler × Bool :=
           ({ h with sink := k, queue := [], hung := true }, true)     -- the sentinel does not end the loop
         else ({ h with sink := k, queue := unread, joined := true }, false)
       else ({ h with hung := true }, true)
+    | .joinWorkerTimeout =>
+      -- a bounded wait: for a backlog longer than the bound (slow sink, burst) the call returns while
+      -- the queue is still unread – the model takes that (adversarial) case
+      (h, false)
     | .closeQueue => (h, false)
     | .sinkStop => ({ h with sink := h.sink.stop }, false)
 
